@@ -4,6 +4,8 @@ import json, os
 ROOT = os.path.dirname(os.path.dirname(os.path.abspath(__file__)))
 TECH = "bounded symbolic execution of go/ssa + SMT (z3; cvc5 cross-check in thorough), native replay of counterexamples"
 claimed = {
+ "C15": dict(level="One-step inductive bounded symbolic model checking of the option list (Add/Set/Remove/Find and all getters from an arbitrary sorted list, against a reference sorted-multiset model), of the pooled-message builder around the 256-byte inline value buffer (values byte-exact after growth, Clone, Reset/reuse), and of SetPath/Path normalisation on every short path string plus the 255/256-byte segment limit.",
+             note="Trusted: gosym encoder (native witnesses), z3/cvc5, harness reference model. List size, value length and path length bounds in evidence.", ref="DESIGN.md §4 C15"),
  "C08": dict(level="ValidSequenceNumber decided against the RFC 7641 §3.4 formula on its full domain (all uint32 pairs, all instants); the observation's accept/reject step decided from an arbitrary state (inductive step: state is exactly last accepted sequence + time); registration code, routing by token, cancellation and failed registration decided on a two-observation harness with all 2^16 answer codes.",
              note="Trusted: gosym encoder (native witnesses with injected clock), z3/cvc5, time.Time modelled as int64 ns. Concurrent Handle/Cancel and end-to-end Conn wiring outside.", ref="DESIGN.md §4 C08"),
  "C18": dict(level="Bounded symbolic model checking of inactivity.Monitor and KeepAlive wired as the library wires them: every history of up to 4/5 (quick) or 7 (thorough) events {message, tick, pong for any earlier ping} with symbolic non-decreasing times, symbolic period and retry limit, against an event-counting oracle written from the statement.",
